@@ -139,6 +139,10 @@ pub fn run_writer(cfg: WCfg, end: WEnd, ops: &[WOp]) -> Result<WDone, Failure> {
     for op in ops {
         rets.push(model_wop(op, e, wb, &mut full));
     }
+    if end == WEnd::UnwrapThenWrite && cfg.wrap != WWrap::Dbg {
+        // the sentinel written after unwrapping (see WEnd::UnwrapThenWrite)
+        full.push_field(0b1011, 4, e);
+    }
     let data_bits = full.len();
     let final_pending = full.len() % wb;
     full.pad_to(wb);
